@@ -378,3 +378,130 @@ def typestate_asserts_hold(ctx, esc, rule):
                             ctx.site(fi, n), {'chains': f['chains']})
     ctx.floor('%s state assertions in IkeSa' % rule, total, 7)
     return ts
+
+
+# ---------------------------------------------------------------------------------------
+def handler_table(ctx, fname):
+    """{exchange member name: FuncInfo} of the literal `_handler_dict` in IkeSa.<fname>"""
+    fi = ctx.prog.func('ikesa.IkeSa.' + fname)
+    for n in walk_no_nested(fi.node):
+        if isinstance(n, ast.Assign) and isinstance(n.value, ast.Dict) and len(n.value.keys) >= 3 \
+                and all(isinstance(v, ast.Attribute) and isinstance(v.value, ast.Name) and v.value.id == 'self'
+                        for v in n.value.values):
+            out = {}
+            for k, v in zip(n.value.keys, n.value.values):
+                m = fi.cls.lookup(v.attr)
+                ctx.require(m is not None, 'handler %s of %s is not a method' % (v.attr, fname))
+                out[src(k).split('.')[-1]] = m
+            return out
+    raise AnalysisError('anchor vanished: _handler_dict literal in IkeSa.%s' % fname)
+
+
+def exchange_of(expr):
+    ch = attr_chain(expr)
+    if ch and '.Exchange.' in ch:
+        return ch.split('.')[-1]
+    return None
+
+
+def request_generators(ctx):
+    """functions of IkeSa that assign self.request from generate_request(Exchange.T, ...):
+    [{fi, exchange, node (ast.Assign), states (set of state names assigned in the function)}]"""
+    out = []
+    cls = ctx.prog.cls('ikesa.IkeSa')
+    for fi in cls.methods.values():
+        for n in walk_no_nested(fi.node):
+            if not isinstance(n, ast.Assign):
+                continue
+            if not any(is_self_attr(t, fi, 'request') for t in n.targets):
+                continue
+            v = n.value
+            if isinstance(v, ast.Call) and isinstance(v.func, ast.Attribute) and v.func.attr == 'generate_request' \
+                    and v.args:
+                ex = exchange_of(v.args[0])
+                states = set()
+                for m in walk_no_nested(fi.node):
+                    if isinstance(m, ast.Assign) and any(is_self_attr(t, fi, 'state') for t in m.targets):
+                        for x in ast.walk(m.value):
+                            s = state_name(x)
+                            if s:
+                                states.add(s)
+                out.append({'fi': fi, 'exchange': ex, 'node': n, 'states': states})
+    return out
+
+
+def dominated_by_edge(g, target, cond, label):
+    """every path from entry to `target` takes the `label` edge of `cond`"""
+    blocked = [(cond.id, lab, m.id) for lab, m in cond.succ if lab == label]
+    return target.id not in g.reach([g.entry], blocked_edges=blocked)
+
+
+def nodes_calling(ctx, fi, g, pred):
+    """CFG nodes of fi containing a call for which pred(call, Res) holds: [(node, call)]"""
+    out = []
+    for n in g.nodes:
+        for e in n.exprs():
+            if e is None:
+                continue
+            for x in walk_no_nested(e):
+                if isinstance(x, ast.Call) and pred(x, ctx.res.resolve_call(x, fi, count=False)):
+                    out.append((n, x))
+    return out
+
+
+def calls_named(name):
+    return lambda call, r: (isinstance(call.func, ast.Attribute) and call.func.attr == name) or \
+        (isinstance(call.func, ast.Name) and call.func.id == name)
+
+
+def deleted_observed(ctx, esc, rule):
+    """P4/D3: both places where the controller can observe an IKE_SA in DELETED tear it down:
+    `x.delete_child_sas()` and `ike_sas.remove(x)` under `x.state == DELETED`."""
+    from ..typestate import States
+    S = States(ctx.prog)
+    sites = 0
+    for q in ('ikesacontroller.IkeSaController.dispatch_message', 'ikesacontroller.IkeSaController.main_loop'):
+        fi = ctx.func(q)
+        g = esc.add_exception_edges(fi)
+        found = False
+        for c in g.nodes:
+            if c.kind != 'cond':
+                continue
+            ev = S.eval_cond(c.ast)
+            if ev is None or ev[1] != frozenset(['DELETED']):
+                continue
+            subj = ev[0].rsplit('.', 1)[0]
+            tnodes = g.reach([m for lab, m in c.succ if lab == 'T'], blocked_nodes=[c], follow_exc=False)
+            dele = [n for n, x in nodes_calling(ctx, fi, g, calls_named('delete_child_sas'))
+                    if n.id in tnodes and src(x.func.value) == subj and dominated_by_edge(g, n, c, 'T')]
+            rem = [n for n, x in nodes_calling(ctx, fi, g, calls_named('remove'))
+                   if n.id in tnodes and src(x.func.value).endswith('ike_sas') and x.args and src(x.args[0]) == subj
+                   and dominated_by_edge(g, n, c, 'T')]
+            if dele and rem:
+                found = True
+                sites += 1
+                # delete before remove
+                order_ok = all(r.id in g.reach([d]) for d in dele for r in rem)
+                ctx.check(order_ok, rule, '%s: DELETED `%s` is torn down (delete_child_sas then removal from ike_sas)'
+                          % (q.split('.')[-1], subj), key=(rule, q, 'teardown-order'), site=ctx.site(fi, c.ast))
+        ctx.check(found, rule, '%s tears down an IKE_SA observed in state DELETED' % q.split('.')[-1],
+                  key=(rule, q, 'no-teardown'), site=ctx.site(fi, fi.node))
+    # every removal from ike_sas is paired with delete_child_sas on the same object
+    ctrl = ctx.prog.cls('ikesacontroller.IkeSaController')
+    for fi in ctrl.methods.values():
+        g = esc.add_exception_edges(fi)
+        for n, x in nodes_calling(ctx, fi, g, calls_named('remove')):
+            if not src(x.func.value).endswith('ike_sas') or not x.args:
+                continue
+            subj = src(x.args[0])
+            # inside an exception handler that undoes a registration made by the same event: no kernel SAs yet
+            if any(part == 'handler' for (_, part, _) in n.try_ctx):
+                ctx.ok(rule, 'removal of `%s` in an exception handler undoes a registration of the same event' % subj,
+                       ctx.site(fi, x))
+                continue
+            dele = [d for d, y in nodes_calling(ctx, fi, g, calls_named('delete_child_sas'))
+                    if src(y.func.value) == subj]
+            ok = any(n.id not in g.reach([g.entry], blocked_nodes=[d]) for d in dele)
+            ctx.check(ok, rule, 'every path to `ike_sas.remove(%s)` in %s passes `%s.delete_child_sas()`' % (
+                subj, fi.qual, subj), key=(rule, fi.qual, 'remove-without-delete', subj), site=ctx.site(fi, x))
+    return sites
